@@ -203,6 +203,7 @@ type signedObject struct {
 	tbsOff, tbsEnd int    // its position in the DER
 	algOID         string
 	algParams      []byte // full TLV of the parameters, nil if absent
+	algOff, algEnd int    // position of the content of the outer AlgorithmIdentifier
 	sig            []byte // signature octets (BIT STRING without the unused-bits octet)
 	sigOff, sigEnd int    // position of those octets
 }
@@ -227,6 +228,8 @@ func splitSigned(der []byte) (*signedObject, error) {
 		return nil, errDER
 	}
 	so := &signedObject{tbs: kids[0].full, tbsOff: base + kids[0].off, tbsEnd: base + kids[0].off + len(kids[0].full)}
+	so.algOff = base + kids[1].off + kids[1].hdr
+	so.algEnd = so.algOff + len(kids[1].content)
 	alg, err := children(kids[1].content)
 	if err != nil || len(alg) < 1 || len(alg) > 2 || alg[0].tag != 0x06 {
 		return nil, errDER
